@@ -567,8 +567,8 @@ Proof. vm_compute. repeat split; reflexivity. Qed.
    range); the safety theorems (1), (6) are therefore proved again for find_step_gs, for ANY partition of the
    source points into subnets, and restated for the generated functions.
 
-   NOT proved (what is missing): the completeness half (9)-(12) for the generated step (C14_movie_complete for
-   py_find_link_iter).  It needs: under the hypotheses of (9) every relocated point is claimed, so that
+   NOT proved in this part (proved in part 3 below, (29)-(35)): the completeness half (9)-(12) for the generated step
+   (C14_movie_complete for py_find_link_iter).  It needs: under the hypotheses of (9) every relocated point is claimed, so that
    find_step_gs coincides with find_step on the same subnets, and (9)/(10) generalised from find_groups to any
    partition (their proofs use nothing else).  Also not translated: after_link / refine, anisotropic ranges, the
    predictor's positions in hash order (theorems are for predictor = None), Subnets.__init__ / the subnet linker /
@@ -777,4 +777,204 @@ Example C14_gen_driver_example :
   py_find_link_iter (gen_reloc (fun _ _ => Qmake 50 1)) (map snd) gd ch 1 30
     (mk_rframe im0 0, [mk_rframe im1 1]) (mk_tup 5 2) (mk_tup 9 2) None (Qmake 64 1) 0 None None (mk_kw 0 false)
   = Some (Ok [([0; 1]%nat, [[32; 20]; [26; 27]]); ([0; 1]%nat, [[33; 20]; [26; 28]])]).
+Proof. vm_compute. reflexivity. Qed.
+
+(* ================================================================ ROUTE T, part 3
+   (29)-(35): COMPLETENESS for the model of the code (Model/FindLink3.v) and for the GENERATED step and driver
+   (Gen/findstep.v) -- the item named "NOT proved" above.  Proofs/FindstepComplete.v, FindstepComplete2.v.
+
+   What was missing and is proved here:
+     (a) under the hypotheses of (9) every relocated point is claimed by a link of its own subnet, so the
+         claimed-only rule of the code drops nothing and the links need no renumbering: on the same subnets
+         find_step_gs returns what find_step returns (29);
+     (b) (9), (10), (12) hold for ANY partition of the source points into subnets -- raw source points, visited in
+         any order (30)-(32); in particular for the subnets the code builds (code_groups, gen_grouping);
+   hence (33)-(35) for the generated next_level and the generated driver py_find_link_iter with the generated
+   relocate as every frame's oracle.  Hypotheses: those of (9)/(10), nothing added (the oracle hypothesis
+   [finds] stays the analytic statement about the blob images, checkable by enumeration: finds_b). *)
+From TP Require Import Proofs.FindstepComplete Proofs.FindstepComplete2.
+
+(* (29) = (a): on the subnets of the first model the model of the code IS the first model *)
+Theorem C14_code_step_coincides :
+  forall m mem max_size rel st Bp B ds,
+    tracks_inv Bp st -> moves m Bp B -> cross m Bp B -> given B ds -> finds m Bp B rel ->
+    (length Bp <= max_size)%nat ->
+    find_step_gs m mem max_size no_pred rel (find_groups m no_pred st ds) st ds
+    = find_step m mem max_size no_pred rel st ds.
+Proof. exact find_step_gs_coincides. Qed.
+Print Assumptions C14_code_step_coincides.
+
+(* (30) = (9) for the model of the code, for EVERY partition gs of the (raw) source points into subnets: whatever is
+   withheld, the step raises nothing, returns the given detections plus added (= claimed relocated) features, every
+   blob of the new frame is there under its own label and nothing else, and the new state is again the blobs under
+   their own labels *)
+Theorem C14_code_step_complete :
+  forall m mem max_size rel gs st Bp B ds,
+    Permutation (concat gs) (raw_items m no_pred st ds) ->
+    tracks_inv Bp st -> moves m Bp B -> cross m Bp B -> given B ds -> finds m Bp B rel ->
+    (length Bp <= max_size)%nat ->
+    exists st' labs added,
+      find_step_gs m mem max_size no_pred rel gs st ds = Ok (st', labs, ds ++ added) /\
+      length labs = length (ds ++ added) /\
+      frame_complete B labs (ds ++ added) /\ tracks_inv B st'.
+Proof. exact find_step_gs_tracks. Qed.
+Print Assumptions C14_code_step_complete.
+
+(* ... in particular on the subnets the code builds (components of the sources that have a candidate, lost sources
+   as subnets of their own, merge_lost_subnets by dictionary key) *)
+Theorem C14_code_groups_step_complete :
+  forall m mem max_size rel st Bp B ds,
+    tracks_inv Bp st -> moves m Bp B -> cross m Bp B -> given B ds -> finds m Bp B rel ->
+    (length Bp <= max_size)%nat ->
+    exists st' labs added,
+      find_step_gs m mem max_size no_pred rel (code_groups m no_pred st ds) st ds = Ok (st', labs, ds ++ added) /\
+      length labs = length (ds ++ added) /\
+      frame_complete B labs (ds ++ added) /\ tracks_inv B st'.
+Proof. exact find_step_c_tracks. Qed.
+Print Assumptions C14_code_groups_step_complete.
+
+(* (31) = (10) for the model of the code, the grouping of every step any partition of the source points *)
+Theorem C14_code_movie_complete :
+  forall m mem max_size (grp : grouping),
+    (forall st ds, Permutation (concat (grp st ds)) (raw_items m no_pred st ds)) ->
+    forall B0 (frames : list bframe),
+      movie_hyp_b m B0 (map fst frames) = true ->      (* moves_b, cross_b, given_b for every frame *)
+      oracles_find m B0 frames ->                      (* finds for every frame's oracle *)
+      (length B0 <= max_size)%nat ->
+      exists out,
+        find_link_gs m mem max_size no_pred grp B0 (map linker_input frames)
+        = Ok ((seq 0 (length B0), B0) :: out) /\ out_complete frames out.
+Proof. exact find_link_gs_complete. Qed.
+Print Assumptions C14_code_movie_complete.
+
+(* (32) = (12) for the model of the code *)
+Theorem C14_code_equals_detect_then_link :
+  forall m mem max_size (grp : grouping),
+    (forall st ds, Permutation (concat (grp st ds)) (raw_items m no_pred st ds)) ->
+    forall B0 (frames : list bframe),
+      movie_hyp_b m B0 (map fst frames) = true -> oracles_find m B0 frames ->
+      (length B0 <= max_size)%nat ->
+      exists out dl,
+        find_link_gs m mem max_size no_pred grp B0 (map linker_input frames) = Ok out /\
+        link_iter m mem max_size no_pred (B0 :: map (fun f : bframe => fst (fst f)) frames) = Ok dl /\
+        same_tracks out dl (B0 :: map (fun f : bframe => fst (fst f)) frames).
+Proof. exact find_link_gs_equals_detect_then_link. Qed.
+Print Assumptions C14_code_equals_detect_then_link.
+
+(* (33) = (9) for the GENERATED next_level (generated assign_links / Subnets methods inside), every relocate method,
+   every visiting order of the subnet dictionary that keeps the source points: the linker's tracks being the blobs
+   of the previous frame under their own labels, the generated step raises nothing, the frame hash holds the given
+   detections plus added features = exactly the blobs under their own labels, and the tracks are again the blobs *)
+Theorem C14_gen_step_complete :
+  forall relocate_m ord (self : flk) coords t im Bp B,
+    ord_ok ord -> k_pred self = None ->
+    let m := k_met self in
+    let rel := relocate_m (params_of (k_init self)) im t (i_threshold (k_init self)) (i_percentile (k_init self)) in
+    tracks_inv Bp (k_st self) -> moves m Bp B -> cross m Bp B -> given B coords -> finds m Bp B rel ->
+    (length Bp <= k_max self)%nat ->
+    exists self' added,
+      py_next_level relocate_m ord self coords t im = Ok self' /\
+      hash_points self' = coords ++ added /\
+      length (k_labs self') = length (coords ++ added) /\
+      frame_complete B (k_labs self') (coords ++ added) /\ tracks_inv B (k_st self').
+Proof. exact gen_step_complete. Qed.
+Print Assumptions C14_gen_step_complete.
+
+(* (34) = (10) = C14_movie_complete for the GENERATED code end to end: generated find_link_iter, generated __init__,
+   generated next_level / assign_links / Subnets methods, generated relocate of (14)-(19) as the relocate method.
+   The movie: the first frame r0 and, per later frame, the true blobs B with the reader's frame fr; the driver is
+   handed the frames only.  What the linker is given in a frame is what the driver's own detection chain returns on
+   it (dets: grey_dilation, before_link -- the hook that withholds detections --, minmass cut), the oracle of the
+   frame is the generated relocate on the frame's (preprocessed) image at the user's percentile with an empty
+   threshold cache (C14_gen_movie_frames_unfolded).  Hypotheses as in (10): the detection of the first frame is
+   complete (= B0); moves_b, cross_b, given_b for every later frame; the oracle hypothesis for every frame;
+   #blobs <= max_size; and the margin does not cover the image (else find_link_iter raises ValueError).
+   Then the generated driver raises nothing and returns the first frame followed, per frame, by the given
+   detections plus added features forming exactly the blobs under their own labels. *)
+Theorem C14_gen_driver_movie_complete :
+  forall npp ord gd ch k max_size r0 (movie : list (list pt * rframe)) sr sep diam perc mm pf bl kw B0,
+    ord_ok ord ->
+    let ndim := py_len (np_shape (r_image r0)) in
+    let sr' := validate_tup sr ndim in
+    let sep' := validate_tup sep ndim in
+    let d' := match diam with None => sep' | Some d => validate_tup d ndim end in
+    let pf' := match pf with None => identity_proc | Some f => f end in
+    let dets := detections gd ch k sep' d' perc mm pf' bl in
+    let init0 := py_FindLinker_init k sr' sep' (Some d') mm perc kw in
+    let m := fmet (params_of init0) in
+    let frames := map (bframe_of (gen_reloc npp) init0 dets pf') movie in
+    margins_cover (np_shape (r_image r0)) (tup_map (fun d => num_half_int k d) d') = false ->
+    dets r0 = B0 ->
+    movie_hyp_b m B0 (map fst frames) = true -> oracles_find m B0 frames ->
+    (length B0 <= max_size)%nat ->
+    exists out,
+      py_find_link_iter (gen_reloc npp) ord gd ch k max_size (r0, map snd movie) sr sep diam perc mm pf bl kw
+      = Some (Ok ((seq 0 (length B0), B0) :: out)) /\ out_complete frames out.
+Proof. exact (fun npp ord gd ch k max_size r0 movie sr sep diam perc mm pf bl kw B0 Ho =>
+                gen_driver_complete (gen_reloc npp) ord Ho gd ch k max_size r0 movie sr sep diam perc mm pf bl kw B0). Qed.
+Print Assumptions C14_gen_driver_movie_complete.
+
+Theorem C14_gen_movie_frames_unfolded :
+  forall npp k sr sep diam mm perc kw dets pf B fr,
+    bframe_of (gen_reloc npp) (py_FindLinker_init k sr sep diam mm perc kw) dets pf (B, fr)
+    = (B, dets fr,
+       gen_reloc npp (params_of (py_FindLinker_init k sr sep diam mm perc kw)) (pf (r_image fr)) (r_no fr) (None, None) perc).
+Proof. exact bframe_of_gen. Qed.
+
+(* (35) = (12) = C14_equals_detect_then_link for the GENERATED driver: whatever is withheld, its output equals
+   detect-then-link's (the plain Linker on the completely detected frames B0 :: blobs): the same features under the
+   same labels in every frame *)
+Theorem C14_gen_driver_equals_detect_then_link :
+  forall npp ord gd ch k max_size r0 (movie : list (list pt * rframe)) sr sep diam perc mm pf bl kw B0,
+    ord_ok ord ->
+    let ndim := py_len (np_shape (r_image r0)) in
+    let sr' := validate_tup sr ndim in
+    let sep' := validate_tup sep ndim in
+    let d' := match diam with None => sep' | Some d => validate_tup d ndim end in
+    let pf' := match pf with None => identity_proc | Some f => f end in
+    let dets := detections gd ch k sep' d' perc mm pf' bl in
+    let init0 := py_FindLinker_init k sr' sep' (Some d') mm perc kw in
+    let m := fmet (params_of init0) in
+    let frames := map (bframe_of (gen_reloc npp) init0 dets pf') movie in
+    margins_cover (np_shape (r_image r0)) (tup_map (fun d => num_half_int k d) d') = false ->
+    dets r0 = B0 ->
+    movie_hyp_b m B0 (map fst frames) = true -> oracles_find m B0 frames ->
+    (length B0 <= max_size)%nat ->
+    exists out dl,
+      py_find_link_iter (gen_reloc npp) ord gd ch k max_size (r0, map snd movie) sr sep diam perc mm pf bl kw = Some (Ok out) /\
+      link_iter m (kw_memory kw) max_size no_pred (B0 :: map fst movie) = Ok dl /\
+      same_tracks out dl (B0 :: map fst movie).
+Proof. exact (fun npp ord gd ch k max_size r0 movie sr sep diam perc mm pf bl kw B0 Ho =>
+                gen_driver_equals_detect_then_link (gen_reloc npp) ord Ho gd ch k max_size r0 movie sr sep diam perc mm pf bl kw B0). Qed.
+Print Assumptions C14_gen_driver_equals_detect_then_link.
+
+(* non-vacuity: the movie of (13b) (two blobs, three frames; grey_dilation returns both features in the first frame,
+   nothing in the second and one of the two in the third; np.percentile answering 50) through the GENERATED driver:
+   the hypotheses of (34) hold -- the oracle hypothesis for the generated relocate checked by enumeration (finds_b) -- *)
+Example C14_gen_driver_complete_example_hyps :
+  let frames := map (bframe_of (gen_reloc exg_npp) exg_init exg_dets identity_proc) exg_movie in
+  margins_cover (np_shape exg_im0) (tup_map (fun d => num_half_int 1 d) (mk_tup 9 2)) = false /\
+  exg_dets (mk_rframe exg_im0 0) = [[32; 20]; [26; 27]] /\
+  movie_hyp_b (fmet (params_of exg_init)) [[32; 20]; [26; 27]] (map fst frames) = true /\
+  oracles_find (fmet (params_of exg_init)) [[32; 20]; [26; 27]] frames /\ (2 <= 30)%nat.
+Proof. exact gen_driver_complete_example_hyps. Qed.
+
+Theorem C14_gen_example_unfolded :
+  exg_im0 = spots 40 40 [(32, 20, 100); (26, 27, 100)] /\
+  exg_movie = [([[33; 20]; [26; 28]], mk_rframe (spots 40 40 [(33, 20, 100); (26, 28, 100)]) 1);
+               ([[34; 21]; [27; 28]], mk_rframe (spots 40 40 [(34, 21, 100); (27, 28, 100)]) 2)] /\
+  exg_gd = (fun (im : image) (_ : tup) (_ : Q) (_ : tup) =>
+              if pix im [32; 20] =? 100 then [[32; 20]; [26; 27]] else if pix im [27; 28] =? 100 then [[27; 28]] else []) /\
+  exg_ch = (fun (c : list pt) (_ : image) (_ : tup) => map (fun _ => Some 100) c) /\
+  exg_npp = (fun _ _ => Qmake 50 1) /\
+  exg_init = py_FindLinker_init 1 (mk_tup 5 2) (mk_tup 9 2) (Some (mk_tup 9 2)) 0 (Qmake 64 1) (mk_kw 0 false) /\
+  exg_dets = detections exg_gd exg_ch 1 (mk_tup 9 2) (mk_tup 9 2) (Qmake 64 1) 0 identity_proc None.
+Proof. repeat split. Qed.
+
+(* ... and the generated driver, run inside Coq (vm_compute), returns what (34) says: both blobs under their own
+   labels in every frame, the withheld ones re-found and claimed *)
+Example C14_gen_driver_complete_example_run :
+  py_find_link_iter (gen_reloc exg_npp) (map snd) exg_gd exg_ch 1 30
+    (mk_rframe exg_im0 0, map snd exg_movie) (mk_tup 5 2) (mk_tup 9 2) None (Qmake 64 1) 0 None None (mk_kw 0 false)
+  = Some (Ok [([0; 1]%nat, [[32; 20]; [26; 27]]); ([0; 1]%nat, [[33; 20]; [26; 28]]); ([1; 0]%nat, [[27; 28]; [34; 21]])]).
 Proof. vm_compute. reflexivity. Qed.
